@@ -1788,7 +1788,8 @@ def big_pull_cases(prefix="bigpull"):
 
 def push_late_answer_cases(prefix="plate"):
     """The real push loop at a 200..300 ms interval and an endpoint that accepts 700 ms after the request arrived - later
-    than one interval, far within the 10 s ack deadline: the message is POSTed once, its acceptance counts."""
+    than one interval, far within the 10 s ack deadline: the message is POSTed once, its acceptance counts (1.5 s of
+    real time after the loop, so that an answer still on its way on a slow machine has arrived before STATS)."""
     T, P0 = hx(tname("p", "t")), hx(sname("p", "push0"))
     cases = []
     for interval, n in ((300, 1), (200, 3), (250, 2)):
@@ -1796,7 +1797,7 @@ def push_late_answer_cases(prefix="plate"):
         ops = ["MODE push", "SEED 1", "CT " + T, "CS %s %s 10 %s" % (P0, T, hx("http://ep/e0")),
                "EP 0 %d %s" % (4 * n, " ".join(["late200"] * (4 * n))),
                "PUB %s %d %s" % (T, n, " ".join("%s 0" % hx("m%d" % i) for i in range(n))),
-               "LOOP %d %d" % (interval, rounds), "STATS " + P0, "PULL %s 10 1" % P0]
+               "LOOP %d %d" % (interval, rounds), "ADV %d" % (1500 * MS), "STATS " + P0, "PULL %s 10 1" % P0]
         cases.append(("%s-%d-%d" % (prefix, interval, n), ops))
     return cases
 
